@@ -1512,7 +1512,11 @@ impl CodegenContext {
                     }
                 }
 
+                // (in a fixed order, and every macro gets analysed, also when an earlier one keeps invoking itself)
+                macro_defs.sort_by_key(|(symbol_nx, _)| symbol_nx.index());
                 for (symbol_nx, def) in macro_defs {
+                    s.macro_depth = 0;
+                    s.macro_depth_exceeded = false;
                     if s.symbol_definition(symbol_nx).is_unused() {
                         // Just like a real invocation the body gets a scope of its own, in which the arguments exist.
                         // Otherwise the symbols the macro defines would end up in (and clash with) the root scope.
